@@ -64,6 +64,9 @@ func runSeed(base uint64, prop string, i int) uint64 {
 
 var tier = "quick"
 
+// coldStart: the process must not parse anything before its (single) run.
+var coldStart bool
+
 func dispatch(prop string) *RunResult {
 	switch prop {
 	case "C04":
@@ -71,6 +74,9 @@ func dispatch(prop string) *RunResult {
 	case "C05":
 		return runC05()
 	case "C06":
+		if coldStart {
+			return runC06Cold()
+		}
 		return runC06()
 	case "C07":
 		return runC07()
@@ -100,6 +106,7 @@ func main() {
 	oneshotItem := flag.Int("oneshot-item", -1, "C19: execute this corpus item as the first library call of the process and print its outcome")
 	emitC := flag.Bool("emit-corpus", false, "C19: print the corpus")
 	expectFile := flag.String("expect", "", "C19: JSON array of fresh-process outcomes, one per corpus item")
+	cold := flag.Bool("cold", false, "C06: cold start - nothing is parsed before the tasks start; one run per process")
 	gstats := flag.Int("genstats", 0, "debug: measure the hit rate of the path generator")
 	flag.Parse()
 	if *gstats > 0 {
@@ -120,7 +127,10 @@ func main() {
 		emitCorpus(*seed, enc)
 		return
 	}
-	initReFn()
+	coldStart = *cold
+	if !coldStart {
+		initReFn()
+	}
 	if *prop == "C19" {
 		loadC19(*seed, *expectFile)
 	}
